@@ -19,7 +19,7 @@ from harness.common.framework import CorrResult, VERIF
 
 PROP_ID = "C20"
 COQ_PROPS = "theories/Props/C20.v"
-COQ_EXTRA = ["gen/C20_gen.v", "gen/C20_schema.v", "gen/C20_records.v"]
+COQ_EXTRA = ["gen/C20_gen.v", "gen/C20_schema.v", "gen/C20_records.v", "gen/C20_llsd.v"]
 EXTRACT = ("theories/Extract/ExC20.v", "c20_driver.ml")
 EXTRACT_Z = True
 TRUSTED = [
@@ -401,6 +401,9 @@ Proof. intros turbo payload l st Hl Hr. exact (xfer_done_iff turbo live_max_chun
     rec_obls += [{"name": "gen/C20_records.v: %s lookup names round-trip for all %d members except %s (vm_compute on tables obtained by "
                           "calling to_lookup_name/from_lookup_name)" % (en, n, exc or "none"), "detail": "exhaustive"}
                  for en, (n, exc) in info["enums"].items()]
+    nl = cr.emit_llsd(os.path.join(VERIF, "coq", "gen", "C20_llsd.v"))
+    rec_obls.append({"name": "gen/C20_llsd.v: %d LLSD key tables (5 classes x legacy/ais, from cls._get_fields_dict(llsd_flavor)) satisfy "
+                             "wf_keys and llsd_roundtrip is instantiated at each" % nl, "detail": "key renaming read from the live code"})
     return rec_obls + [{"name": "gen/C20_gen.v: 4 <= MAX_CHUNK_SIZE (=%d) and the xfer theorems instantiated at it" % m, "detail": "live value"},
             {"name": "gen/C20_schema.v: %d live schema keys satisfy key_ok, %d live lookup-name tokens satisfy val_ok" % (nk, nt),
              "detail": "dataclasses.fields of InventoryItem/Category/Object/Permissions/SaleInfo + lookup tables"}]
@@ -674,6 +677,100 @@ def correspond_records(ctx):
     return res
 
 
+def correspond_llsd(ctx):
+    """(3) SchemaBase.to_llsd / from_llsd of the live classes in both flavours vs the extracted model at the generated key tables"""
+    from harness.translate import c20_records as cr
+    from harness.translate import c20_codecs as cc
+    import hippolyzer.lib.base.llsd as llsd
+    rng = ctx.rng
+    res = CorrResult(suite="LLSD flavours: real SchemaBase.to_llsd/from_llsd vs extracted model at the live key tables",
+                     rule="generated nodes and their permissions/sale_info blocks, flavours legacy and ais: the dict of the real "
+                          "SchemaBase.to_llsd (keys, order, per-kind value and LLSD type) must equal the model's; that dict, as is and "
+                          "with an entry dropped or unknown keys added, goes through the real SchemaBase.from_llsd and the model's; "
+                          "where the model says dom=true the real round trip must return an equal object. The AIS overrides of "
+                          "InventoryCategory/InventoryItem are not part of this suite (impl-level oracle). non-trivial = distinct line")
+    classes = cr._classes()
+    lines, impl, cases, pend = [], [], [], []
+    stats = {"objects": 0, "in-dom": 0}
+    objs = []
+    for nodes in cc.gen_models(rng, "legacy", ctx.pick(40, 1000)):
+        for n in nodes:
+            try:
+                objs.append(cc.node_from_spec(n))
+            except Exception:
+                pass
+    for o in list(objs):
+        if getattr(o, "permissions", None) is not None and rng.random() < 0.2:
+            objs.append(o.permissions)
+        if getattr(o, "sale_info", None) is not None and rng.random() < 0.2:
+            objs.append(o.sale_info)
+    schemas = {(c.__name__, fl): cr.live_llsd_schema(c, fl) for c in classes for fl in cr.FLAVOURS}
+    idx = {(c.__name__, fl): 2 * i + j for i, c in enumerate(classes) for j, fl in enumerate(cr.FLAVOURS)}
+    for o in objs:
+        for fl in cr.FLAVOURS:
+            key = (type(o).__name__, fl)
+            fields = schemas[key]
+            try:
+                rec = cr.enc_record(o, fields)
+                d = cr.impl_to_llsd(o, fl)
+                enc = cr.enc_ldict(d, fields, fl)
+            except Exception as e:
+                enc, d, rec = "EXC:" + type(e).__name__, None, None
+            if rec is None:
+                continue
+            stats["objects"] += 1
+            lines.append("LW %d %s %s" % (idx[key], fl, rec))
+            impl.append(enc)
+            cases.append({"kind": "llsd-write", "cls": key[0], "flavour": fl, "rec": rec})
+            pend.append((len(lines) - 1, o, fl, d))
+            if d is None:
+                continue
+            for variant in range(2):
+                d2 = dict(d)
+                if variant == 1:
+                    r = rng.random()
+                    if r < 0.5 and d2:
+                        d2.pop(rng.choice(list(d2.keys())))
+                    else:
+                        d2["zz_unknown"] = 5
+                enc2 = cr.enc_ldict({k: v for k, v in d2.items() if k != "zz_unknown"}, fields, fl)
+                if "zz_unknown" in d2:
+                    enc2 = (enc2 + " ; " if enc2 else "") + cr._cps("zz_unknown") + "=i5"
+                lines.append("LR %d %s %s" % (idx[key], fl, enc2))
+                impl.append(cr.impl_from_llsd(type(o), d2, fl, fields))
+                cases.append({"kind": "llsd-read", "cls": key[0], "flavour": fl, "dict": enc2[:400]})
+    model = ctx.run_driver(lines)
+    for ml, il, c in zip(model, impl, cases):
+        m = ml.strip()
+        if c["kind"] == "llsd-write":
+            m = m.split(" ", 1)[1] if " " in m else ""
+        if m != il.strip():
+            dd = dict(c)
+            dd.update({"model": ml[:300], "impl": il[:300]})
+            res.disagreements.append(dd)
+    seen = set()
+    for i, o, fl, d in pend:
+        if not model[i].startswith("dom=true") or d is None:
+            continue
+        stats["in-dom"] += 1
+        from hippolyzer.lib.base.legacy_schema import SchemaBase
+        try:
+            back = SchemaBase.from_llsd.__func__(type(o), d, fl)
+            ok, why = back == o, "differs"
+        except Exception as e:
+            ok, why = False, "EXC:" + type(e).__name__
+        if not ok and (type(o).__name__, fl, why) not in seen:
+            seen.add((type(o).__name__, fl, why))
+            res.impl_violations.append({"clause": "a node inside dom_llsd is read back equal from its own LLSD dict",
+                                        "class": "llsd-dict-roundtrip:%s:%s:%s" % (type(o).__name__, fl, why), "kind": "llsd-node",
+                                        "cls": type(o).__name__, "flavour": fl, "rec": cr.enc_record(o, schemas[(type(o).__name__, fl)])})
+    res.evaluations = len(lines)
+    res.distinct_nontrivial = len(set(lines))
+    res.distribution = stats
+    res.samples = [{"line": lines[0][:160], "impl": impl[0][:160]}] if lines else []
+    return res
+
+
 CODEC_KINDS = ("inventory", "enum", "wearable", "anim", "mesh")
 
 
@@ -684,6 +781,7 @@ def correspond(ctx):
     results.append(correspond_transfer(ctx, list(tcases) + list(gen_transfer_cases(ctx))))
     results.append(correspond_schema(ctx))
     results.append(correspond_records(ctx))
+    results.append(correspond_llsd(ctx))
     results.append(correspond_codecs(ctx, [c for c in corpus if c.get("kind") in CODEC_KINDS]))
     return results
 
